@@ -177,11 +177,11 @@ example : isZero (3/2) = false ∧ ¬ (((3 : Nat) : Rat) < (3/2 : Rat).abs) ∧ 
 /-! ## join -/
 
 /-- the separator a `join` argument contributes (documented reading): a list's own separator,
-    comma for maps and argument lists, none (`undecided`) for anything else -/
+    comma for maps, its own for an argument list, none (`undecided`) for anything else -/
 def argSep : Value → Sep
   | .list _ s _ => s
   | .map _ => .comma
-  | .arglist _ _ _ => .comma
+  | .arglist _ _ s => s
   | _ => .undecided
 
 def argBr : Value → Bool
@@ -747,12 +747,12 @@ theorem C14_remove_get_now (m : VPairs) (k : Value) :
   ⟨r, h1, h2, h3⟩
 
 /-- `list-separator` / `is-bracketed` read the list's own separator (`space` when it has none) and
-    bracket flag; a map or argument list is an unbracketed comma list, any other value an unbracketed
-    space list -/
+    bracket flag; a map is an unbracketed comma list, an argument list an unbracketed list with the
+    separator it carries, any other value an unbracketed space list -/
 theorem C14_separator_bracketed (es : VList) (sep : Sep) (br : Bool) (ps kw : VPairs) (s : Sep) :
     separatorF [.list es sep br] = .ok (.str (sepName sep) false) ∧ isBracketedF [.list es sep br] = .ok (.bool br) ∧
     separatorF [.map ps] = .ok (.str "comma".toList false) ∧ isBracketedF [.map ps] = .ok (.bool false) ∧
-    separatorF [.arglist es kw s] = .ok (.str "comma".toList false) ∧ isBracketedF [.arglist es kw s] = .ok (.bool false) ∧
+    separatorF [.arglist es kw s] = .ok (.str (sepName s) false) ∧ isBracketedF [.arglist es kw s] = .ok (.bool false) ∧
     separatorF [.null] = .ok (.str "space".toList false) ∧ isBracketedF [.null] = .ok (.bool false) ∧
     sepName .undecided = "space".toList :=
   ⟨rfl, rfl, rfl, rfl, rfl, rfl, rfl, rfl, rfl⟩
